@@ -81,6 +81,7 @@ type env struct {
 	jwkPub []byte
 	dir    string
 	hosted bool
+	note   string // a verdict an operation found by itself (concurrent probes)
 }
 
 // wrap makes the handlers see the admin database as a hosted one (checkAction tests for *nosql.DB)
@@ -487,6 +488,46 @@ func (e *env) exec(o Op) (res fixture.Result, applied func(snap) bool) {
 		}
 		res = e.do(m, "/admin/acme/eab/"+o.A[0], `{"reference":"r"}`)
 		return res, func(snap) bool { return true }
+	case "xa":
+		// the same administrator created by many clients at once, again and again: exactly one of them
+		// is stored each time (one request at a time: lock_before_everything); a duplicate pair in the
+		// database makes every later start fail
+		const clients = 8
+		rounds := 25
+		if os.Getenv("VERIF_TIER") == "thorough" {
+			rounds = 400
+		}
+		for i := 0; i < rounds && e.note == ""; i++ {
+			sub := fmt.Sprintf("cz%d", i)
+			body := fmt.Sprintf(`{"subject":%q,"provisioner":"jwk","type":1}`, sub)
+			ch := make(chan fixture.Result, clients)
+			for j := 0; j < clients; j++ {
+				go func() { ch <- e.do("POST", "/admin/admins", body) }()
+			}
+			created := 0
+			for j := 0; j < clients; j++ {
+				if r := <-ch; r.Panic != "" {
+					res = r
+				} else if r.Status == 201 {
+					created++
+				}
+			}
+			n := 0
+			if das, err := e.ca.Auth.GetAdminDatabase().GetAdmins(e.srv.Base); err == nil {
+				for _, a := range das {
+					if a.Subject == sub {
+						n++
+					}
+				}
+			}
+			if n != 1 || created != 1 {
+				e.note = fmt.Sprintf("duplicate-admin:stored=%d:created=%d", n, created)
+			}
+		}
+		if res.Panic == "" {
+			res.Status = 200
+		}
+		return res, func(snap) bool { return true }
 	case "xw":
 		// PROBE, not generated (reachable by -replay only; notes/C16.md "lost webhook"): two different
 		// webhooks created at the same time on one provisioner, both answered 201 - are both there?
@@ -504,16 +545,16 @@ func (e *env) exec(o Op) (res fixture.Result, applied func(snap) bool) {
 		}
 		return fixture.Result{Status: 200}, func(snap) bool { return lost == 0 }
 	case "ca":
-		t := "ADMIN"
+		t := 1 // linkedca.Admin_ADMIN (the enum is read as a number)
 		if o.B {
-			t = "SUPER_ADMIN"
+			t = 2
 		}
-		body := fmt.Sprintf(`{"subject":%q,"provisioner":%q,"type":%q}`, o.A[0], o.A[1], t)
+		body := fmt.Sprintf(`{"subject":%q,"provisioner":%q,"type":%d}`, o.A[0], o.A[1], t)
 		switch o.V {
 		case "badtype":
 			body = fmt.Sprintf(`{"subject":%q,"provisioner":%q,"type":7}`, o.A[0], o.A[1])
 		case "nosubject":
-			body = fmt.Sprintf(`{"subject":"","provisioner":%q,"type":"ADMIN"}`, o.A[1])
+			body = fmt.Sprintf(`{"subject":"","provisioner":%q,"type":1}`, o.A[1])
 		case "notjson":
 			body = `{"subject": `
 		}
@@ -528,11 +569,11 @@ func (e *env) exec(o Op) (res fixture.Result, applied func(snap) bool) {
 		}
 	case "ua":
 		id := e.adminID(o.A[0])
-		t := "ADMIN"
+		t := 1
 		if o.B {
-			t = "SUPER_ADMIN"
+			t = 2
 		}
-		body := fmt.Sprintf(`{"type":%q}`, t)
+		body := fmt.Sprintf(`{"type":%d}`, t)
 		if o.V == "badtype" {
 			body = `{"type":9}`
 		}
@@ -606,6 +647,8 @@ func (k *Case) run() (line, verdict string, accepted int) {
 			accepted++
 		}
 		switch {
+		case e.note != "":
+			verdict = e.note
 		case res.Panic != "":
 			verdict = "crash:" + o.K + ":" + o.V + ":" + strings.ReplaceAll(res.Panic, "\t", " ")
 		case res.Timeout:
@@ -691,7 +734,7 @@ func corner() []*Case {
 		{Ops: []Op{{K: "cp", A: []string{"pa"}, V: "k8s"}, {K: "cp", A: []string{"pb"}, V: "k8s"}, {K: "cp", A: []string{"pb"}, V: "k8sid"}, {K: "cp", A: []string{"pc"}, V: "presetid"}, {K: "rs"},
 			{K: "up", A: []string{"pa", "pd"}, V: "rename"}, {K: "cp", A: []string{"pa"}, V: "k8sid"}, {K: "dp", A: []string{"pd"}}, {K: "cp", A: []string{"pa"}, V: "k8sid"}, {K: "rs"}}},
 		{Ops: []Op{{K: "qp", A: []string{"jwk"}}, {K: "qu", A: []string{"jwk"}}, {K: "qd", A: []string{"jwk"}}, {K: "eb", A: []string{"jwk"}}}},
-		{Ops: []Op{{K: "pd"}, {K: "pp", V: "lockout"}, {K: "pp"}, {K: "pp"}, {K: "pu", V: "other"}, {K: "rs"}, {K: "pd"}, {K: "pd"}, {K: "pu"}, {K: "xd"}, {K: "pd"}, {K: "rs"}}},
+		{Ops: []Op{{K: "pd"}, {K: "pp", V: "lockout"}, {K: "pp"}, {K: "pp"}, {K: "pu", V: "other"}, {K: "rs"}, {K: "pd"}, {K: "pd"}, {K: "pu"}, {K: "xd"}, {K: "pd"}, {K: "rs"}, {K: "xa"}, {K: "rs"}}},
 		{Ops: []Op{{K: "cp", A: []string{"pa"}}, {K: "cp", A: []string{"pa"}}, {K: "cp", A: []string{"pb"}, V: "min>max"}, {K: "cp", A: []string{"pb"}, V: "badtemplate"},
 			{K: "cp", A: []string{"pb"}, V: "goodtemplate"}, {K: "rs"}, {K: "up", A: []string{"pb", "pc"}, V: "rename"}, {K: "up", A: []string{"pc", "pc"}, V: "changeid"},
 			{K: "cw", A: []string{"pc", "w0"}}, {K: "cw", A: []string{"pc", "w0"}}, {K: "cw", A: []string{"pc", "w1"}, V: "http"}, {K: "uw", A: []string{"pc", "w0"}}, {K: "uw", A: []string{"pc", "w0"}, V: "secret"}, {K: "uw", A: []string{"pc", "w1"}}, {K: "rs"}, {K: "dw", A: []string{"pc", "w0"}}, {K: "dw", A: []string{"pc", "w0"}},
